@@ -189,10 +189,30 @@ void c11_jac(vf::Tape & t, vf::Ctx & ctx)
   const SplineJacobian<G, K - 1> dg = cspline_eval_dg_dvs<K, G>(vs, Bcum, u, dvel, dacc);
   const auto R0  = orc::cspline_ref<S>(vsL, BcumL, uL);
   const MatL X0i = orc::inverse(R0.X);
-  MatL rg(D, D * K), rv(D, D * K), ra(D, D * K);
+  // a generated subset of columns is verified per case (every column is reachable; all of them for small K*D)
+  std::vector<char> pick_vs(static_cast<size_t>(D * K), 1), pick_gs(static_cast<size_t>(D * (K + 1)), 1);
+  if (D * K > 6) {
+    std::fill(pick_vs.begin(), pick_vs.end(), 0);
+    std::fill(pick_gs.begin(), pick_gs.end(), 0);
+    for (int q = 0; q < 5; ++q) {
+      pick_vs[static_cast<size_t>(t.choice(static_cast<uint64_t>(D * K)))] = 1;
+      pick_gs[static_cast<size_t>(t.choice(static_cast<uint64_t>(D * (K + 1))))] = 1;
+    }
+  }
+  auto masked = [](const MatL & a, const MatL & b, const std::vector<char> & pick) {
+    double e = 0;
+    LD sc    = 1;
+    for (Eigen::Index c = 0; c < b.cols(); ++c)
+      if (pick[static_cast<size_t>(c)]) sc = std::max(sc, maxabs<LD>(MatL(b.col(c))));
+    for (Eigen::Index c = 0; c < b.cols(); ++c)
+      if (pick[static_cast<size_t>(c)]) e = std::max(e, static_cast<double>(maxabs<LD>(MatL(a.col(c) - b.col(c))) / sc));
+    return e;
+  };
+  MatL rg = MatL::Zero(D, D * K), rv = rg, ra = rg;
   bool ok = true;
   for (int j = 0; j < K; ++j)
     for (int k = 0; k < D; ++k) {
+      if (!pick_vs[static_cast<size_t>(D * j + k)]) continue;
       auto pert = [&](LD s) {
         auto w = vsL;
         w[static_cast<size_t>(j)](k) += s * h;
@@ -209,9 +229,9 @@ void c11_jac(vf::Tape & t, vf::Ctx & ctx)
     ctx.discard("reference log did not converge");
     return;
   }
-  ctx.le("dg_dvs == right-Jacobian of the value w.r.t. the differences", rel(dg.template cast<LD>(), rg, 1.0), 1e-6);
-  ctx.le("dvel_dvs", rel(dvel.template cast<LD>(), rv, 1.0), 1e-6);
-  ctx.le("dacc_dvs", rel(dacc.template cast<LD>(), ra, 1.0), 1e-6);
+  ctx.le("dg_dvs == right-Jacobian of the value w.r.t. the differences", masked(dg.template cast<LD>(), rg, pick_vs), 1e-6);
+  ctx.le("dvel_dvs", masked(dvel.template cast<LD>(), rv, pick_vs), 1e-6);
+  ctx.le("dacc_dvs", masked(dacc.template cast<LD>(), ra, pick_vs), 1e-6);
 
   // ---- w.r.t. control points gs (right perturbation g_j <- g_j exp(e))
   const G g0 = elem_from<G>(S::gen_elem(t, ctx, o));
@@ -234,9 +254,10 @@ void c11_jac(vf::Tape & t, vf::Ctx & ctx)
   const SplineJacobian<G, K> dgg = cspline_eval_dg_dgs<K>(gs, Bcum, u, dvelg, daccg);
   const auto C0  = curve(Ms, &ok);
   const MatL C0i = orc::inverse(C0.X);
-  MatL qg(D, D * (K + 1)), qv(D, D * (K + 1)), qa(D, D * (K + 1));
+  MatL qg = MatL::Zero(D, D * (K + 1)), qv = qg, qa = qg;
   for (int j = 0; j <= K; ++j)
     for (int k = 0; k < D; ++k) {
+      if (!pick_gs[static_cast<size_t>(D * j + k)]) continue;
       auto pert = [&](LD s) {
         auto M = Ms;
         VecL e = VecL::Zero(D);
@@ -255,9 +276,9 @@ void c11_jac(vf::Tape & t, vf::Ctx & ctx)
     ctx.discard("reference log did not converge");
     return;
   }
-  ctx.le("dg_dgs == right-Jacobian of the value w.r.t. the control points", rel(dgg.template cast<LD>(), qg, 1.0), 1e-6);
-  ctx.le("dvel_dgs", rel(dvelg.template cast<LD>(), qv, 1.0), 1e-6);
-  ctx.le("dacc_dgs", rel(daccg.template cast<LD>(), qa, 1.0), 1e-6);
+  ctx.le("dg_dgs == right-Jacobian of the value w.r.t. the control points", masked(dgg.template cast<LD>(), qg, pick_gs), 1e-6);
+  ctx.le("dvel_dgs", masked(dvelg.template cast<LD>(), qv, pick_gs), 1e-6);
+  ctx.le("dacc_dgs", masked(daccg.template cast<LD>(), qa, pick_gs), 1e-6);
 }
 
 template<int K, class G>
@@ -266,7 +287,7 @@ void reg_one()
   const std::string n = "K=" + std::to_string(K) + "," + gname<G>();
   vf::registry().push_back({"c11.value<" + n + ">", 40 + K * (4 * DofOf<G> + 14) + 3 * (K + 1) * (K + 1), &c11_value<K, G>, 1.0,
                             "0 < u < 1 and >= 2 non-commuting differences", {}});
-  vf::registry().push_back({"c11.jacobians<" + n + ">", 40 + K * (4 * DofOf<G> + 14) + 3 * (K + 1) * (K + 1), &c11_jac<K, G>, DofOf<G> * K > 18 ? 0.03 : 0.12,
+  vf::registry().push_back({"c11.jacobians<" + n + ">", 40 + K * (4 * DofOf<G> + 14) + 3 * (K + 1) * (K + 1), &c11_jac<K, G>, 0.25,
                             "0 < u < 1 and >= 2 non-commuting differences", {}});
 }
 
